@@ -47,7 +47,7 @@ def run(module, cfg, wd, name=None, workers=None, timeout=900, coverage=True, en
         gc = ["-XX:+UseSerialGC", "-XX:TieredStopAtLevel=1"]
     else:
         gc = ["-XX:+UseParallelGC", "-XX:ParallelGCThreads=4"]
-    cmd = ["java", *gc, "-Xmx" + mem, *jvm, "-cp", JAR, "tlc2.TLC",
+    cmd = ["java", *gc, "-Xss256m", "-Xmx" + mem, *jvm, "-cp", JAR, "tlc2.TLC",
            "-workers", str(w), "-metadir", meta, "-noGenerateSpecTE", "-config", cfgp]
     if coverage:
         cmd += ["-coverage", "1"]
